@@ -289,6 +289,12 @@ def check_case(case):
     pddl.validate_probes(dom, objects, case["probes"])
     if tag:
         dom = apply_ops(dom, case["inject"])
+        if tag in MEANINGLESS:
+            try:    # a (reduced) base domain can make a "wrong arity" form well-formed: then it is in-fragment
+                pddl.validate_domain(dom, objects)
+                tag = None
+            except Exception:
+                pass
     ok, domain = parse_domain(dom, S.layout_of(case))
     feats = set()
     for a in dom["actions"]:
